@@ -22,6 +22,10 @@ use std::{
 
 pub const DEFAULT_SEED: u64 = 20260925;
 pub const VERIF_DIR: &str = "/verif";
+/// Root of the verification tree: /verif, or the value of VERIF_ROOT (used only for development in a scratch copy).
+pub fn verif_dir() -> PathBuf {
+    std::env::var_os("VERIF_ROOT").map(PathBuf::from).unwrap_or_else(|| PathBuf::from(VERIF_DIR))
+}
 
 #[derive(Clone, Copy, Debug, PartialEq, Eq, Serialize, Deserialize)]
 pub enum Tier {
@@ -382,7 +386,7 @@ pub struct RunArgs {
 }
 
 fn scratch_dir() -> PathBuf {
-    let p = PathBuf::from(VERIF_DIR).join("harness/target/vrun");
+    let p = verif_dir().join("harness/target/vrun");
     let _ = std::fs::create_dir_all(&p);
     p
 }
@@ -508,7 +512,7 @@ pub fn run_parent<P: Property>(args: &RunArgs) -> i32 {
     }
     let mut replay_paths = Vec::new();
     for (sig, (detail, case, seed)) in &real {
-        let dir = PathBuf::from(VERIF_DIR).join("replays").join(P::ID);
+        let dir = verif_dir().join("replays").join(P::ID);
         let _ = std::fs::create_dir_all(&dir);
         let fname = format!("{}-{}.json", sanitize(sig), seed);
         let path = dir.join(fname);
@@ -547,7 +551,7 @@ pub fn run_parent<P: Property>(args: &RunArgs) -> i32 {
         "violations": real.len(),
         "infrastructure_errors": infra,
     });
-    let evdir = PathBuf::from(VERIF_DIR).join("evidence");
+    let evdir = verif_dir().join("evidence");
     let _ = std::fs::create_dir_all(&evdir);
     let _ = std::fs::write(
         evdir.join(format!("{}.json", P::ID)),
@@ -678,7 +682,7 @@ pub fn fuzz_case<P: Property>(case: &P::Case) {
 }
 
 fn dump_fuzz_case<P: Property>(case: &P::Case, sig: &str, detail: &str) {
-    let dir = PathBuf::from(VERIF_DIR).join("replays").join(P::ID);
+    let dir = verif_dir().join("replays").join(P::ID);
     let _ = std::fs::create_dir_all(&dir);
     let path = dir.join(format!("fuzz-{}-{:016x}.json", sanitize(sig), case_hash(case)));
     let doc = json!({ "property": P::ID, "signature": sig, "detail": detail, "seed": 0, "tier": "fuzz",
